@@ -175,7 +175,7 @@ class ProgGen:
             self.inject_fault()
         timeout = 10.0 ** 6
         if rng.random() < self.p_timeout:
-            timeout = rng.randint(0, 14) + 0.5
+            timeout = rng.randint(0, 14) + 0.5 if rng.random() < 0.85 else 0.0
         return {"kind": "startup", "prog": self.prog, "timeout": timeout}
 
 
